@@ -445,6 +445,22 @@ def run(ctx):
                 finally:
                     os.chdir(cwd)
             continue
+        # two live templates whose URIs differ only in non-word characters: each frame must still carry its own template
+        ctx.evaluations += 1
+        lkc = TemplateLookup()
+        lkc.put_string("/a-b.html", "first template\n${boom(1)}\n")
+        lkc.put_string("/a_b.html", "second template\nline two\n")
+        TARGET[0] = 1
+        try:
+            lkc.get_template("/a-b.html").render(boom=boom)
+        except Boom:
+            tbc = exceptions.RichTraceback()
+            fr = [r for r in tbc.records if r[4] is not None]
+            if not fr or fr[-1][4] != "/a-b.html" or fr[-1][7] != "first template\n${boom(1)}\n":
+                ctx.violation({"uris": ["/a-b.html", "/a_b.html"], "frame": repr(fr[-1][4:7]) if fr else None}, "a template frame is reported with another template's URI and source",
+                              tags=["c12.frame-template.id-collision"])
+        finally:
+            TARGET[0] = None
         # random sparse maps
         for _ in range(300 if tier == "quick" else 5000):
             keys = sorted(rng.sample(range(1, 60), rng.randint(1, 8)))
